@@ -240,6 +240,9 @@ func runDBHistory(work string, idx int, p *dbProfile, in DBInput, r *rand.Rand, 
 				st, forced = forced[0], forced[1:]
 			} else {
 				st = genStep(r, p, in.Callers, last, deleted)
+				if p.Name == "C01" && st.Caller != 0 && st.Kind != "list" && r.IntN(5) == 0 {
+					st.Overlap = true
+				}
 				// reads by different callers back to back, with no write in between (same name, other caller)
 				if n := len(in.Ops); n > 0 && len(in.Callers) > 1 && r.IntN(4) == 0 {
 					if k := in.Ops[n-1].Kind; k == "list" || k == "info" || k == "get" || k == "getver" {
